@@ -242,6 +242,19 @@ CHECKS = {
         technique="TLA+ history model with explicit registry state, histories replayed one per process; TLC-enumerated typed values replayed through Wrap/Unwrap/Marshal",
         engine="tlc+vh",
     ),
+    "C20": dict(
+        category="exploration",
+        text="Concurrency.tla gives every read-only public operation a footprint over abstract shared cells and lets "
+             "goroutines interleave at begin/end granularity; TLC checks NoConflict for every mix and interleaving and "
+             "emits the mixes. The binding is the Go race detector: each mix is run free-running on shared nodes, selector, "
+             "type system, link system and prototypes under -race (which observes the real accesses, also to cells the model "
+             "does not know), and each goroutine's results are compared with the sequential run.",
+        design_ref="DESIGN.md section 4, C20",
+        note="Race freedom is an observation over executions, not a proof; generated-code nodes are not part of the mixes; "
+             "trusted: Go race detector, TLC, harness.",
+        technique="TLA+ footprint/interleaving model generating operation mixes; mixes executed under the Go race detector with result comparison",
+        engine="tlc+vh",
+    ),
 }
 
 NOT_YET = "check not built yet in this round (planned, see DESIGN.md section 4)"
